@@ -46,7 +46,7 @@ def gen_pair(rng, tier):
     left = {"n": nl, "cols": [{"name": lnames[j], "kind": kinds[j], "vals": [rng.choice(pools[j]) for _ in range(nl)]} for j in range(k)]}
     right = {"n": nr, "cols": [{"name": rnames[j], "kind": kinds[j], "vals": [rng.choice(pools[j]) for _ in range(nr)]} for j in range(k)]}
     left["cols"].append({"name": "lp", "kind": "int", "vals": [rng.randint(0, 9) for _ in range(nl)]})
-    pk = rng.choice(["int", "float", "str", "bool", "date"])
+    pk = rng.choice(["int", "int32", "float", "str", "bool", "date"])
     right["cols"].append({"name": "rp", "kind": pk, "vals": [rng.choice([v for v in vecgen.POOLS[pk] if not vecgen.is_na_val(pk, v)]) for _ in range(nr)]})
     by = [[a, b] for a, b in zip(lnames, rnames)]
     return left, right, by
@@ -65,6 +65,16 @@ def gen_cases(ctx):
                   "right": {"n": 1, "cols": [f(1, [1.5]), {"name": "rp", "kind": "float", "vals": [1.0]}]}, "by": [["k0", "k0"]]})
     cases.append({"op": "left", "left": {"n": 0, "cols": [f(0, []), {"name": "lp", "kind": "int", "vals": []}]},
                   "right": {"n": 1, "cols": [f(1, [1.5]), {"name": "rp", "kind": "str", "vals": ["a"]}]}, "by": [["k0", "k0"]]})
+    # small scope, every tier: keys that are equal as values but differ in representation (0.0 / -0.0; NaNs with
+    # different bit patterns, see vecgen.make_array) on the right side, where "first match" must still hold
+    alpha = ["-0.0", 0.0, "nan"]
+    for lv in alpha:
+        for nr in (2, 3):
+            for rv in itertools.product(alpha, repeat=nr):
+                left = {"n": 2, "cols": [{"name": "k0", "kind": "float", "vals": [lv, 1.5]}, {"name": "lp", "kind": "int", "vals": [0, 1]}]}
+                right = {"n": nr, "cols": [{"name": "k0", "kind": "float", "vals": list(rv)}, {"name": "rp", "kind": "int", "vals": list(range(10, 10 + nr))}]}
+                for op in ("left", "inner", "full"):
+                    cases.append({"op": op, "left": left, "right": right, "by": [["k0", "k0"]]})
     n = 500 if ctx.tier == "quick" else 12000
     for _ in range(n):
         left, right, by = gen_pair(rng, ctx.tier)
@@ -156,7 +166,7 @@ def judge(ctx, case, obs, mouts):
         def same(kind, a, b):
             if vecgen.canon_is_na(kind, a) and (b is None or vecgen.canon_is_na(kind, b) or b == "nan"):
                 return True
-            if kind in ("int", "bool") and isinstance(b, float):   # widened to float / object by NA filling
+            if kind in ("int", "int32", "bool") and isinstance(b, float):   # widened to float / object by NA filling
                 return float(a) == b
             return a == b
 
